@@ -126,12 +126,12 @@ def judge_array(acc, fmt, rounding, overflow, ds, part, check_flags=True):
         acc.violation('code', one, 'fmt=%s mode=%s/%s v=%s/2^%d: stored code %s (value %r), expected %d (%d of %d elements differ)'
                       % (fmt.dtype, rounding, overflow, ds[i][0], ds[i][1], got[i] if i < len(got) else None,
                          gv[i] if i < len(gv) else None, expc[i], len(bad), len(ds)),
-                      {'part': part, 'rounding': rounding, 'overflow': overflow})
+                      {'part': part, 'rounding': rounding, 'overflow': overflow}, full=case)
     if check_flags:
         ef = (any(e[1] for e in exp), any(e[2] for e in exp), any(e[3] for e in exp))
         if fl != ef:
             acc.violation('flags', case if len(ds) < 50 else dict(case, vals=case['vals'][:50], truncated=True),
-                          'fmt=%s mode=%s/%s flags %s expected %s' % (fmt.dtype, rounding, overflow, fl, ef), {'part': part})
+                          'fmt=%s mode=%s/%s flags %s expected %s' % (fmt.dtype, rounding, overflow, fl, ef), {'part': part}, full=case)
     acc.sample(dict(case, vals=case['vals'][:3]))
 
 
